@@ -107,7 +107,7 @@ func selName(e ast.Expr) string {
 func runC14(c *Ctx) {
 	P := c.P
 	c.Explanation = "Decides structural clauses: (R-SPAN-SENTINEL, an inconsistent-belief rule) the span parser returns a constant in place of an omitted count; every caller must compare that result with the constant before using it arithmetically. (R-PREFIX-TABLES) the constants the writers emit and the constants the readers classify by agree by value: unified line prefixes per opcode ↔ the reader's switch on the first byte and its payload offset; '@@' header tokens and span tags; file-header prefixes and the name/time separator; the normal format's command letters per opcode ↔ the reader's letters and opcode assignment; '< ', '> ' and '---'. (R-TIMEFMT) the reader accepts the very time format constant the writer defaults to. (R-OP-EXHAUSTIVE) every formatter and the reader handle all opcodes. (R-PATCH-FRESH) the git-patch reader does not reuse the backing array of chunks it has already handed out. Does NOT decide byte-for-byte re-formatting nor that a rendering applied by the published rules turns Left into Right; in particular the spelling of EMPTY ranges (GNU writes the line before an empty range) has no structural signature here and is not decided."
-	c.rule("R-SPAN-SENTINEL", 4, "every use of a sentinel-carrying result of the span parser is preceded by a comparison with the sentinel")
+	c.rule("R-SPAN-SENTINEL", 1, "every use of a sentinel-carrying result of the span parser is preceded by a comparison with the sentinel")
 	c.rule("R-PREFIX-TABLES", 12, "writer and reader constants agree by value")
 	c.rule("R-TIMEFMT", 2, "the reader parses timestamps with the constant the writers default to")
 	c.rule("R-OP-EXHAUSTIVE", 5, "every EditOp switch in package mdiff is exhaustive or has a strict default")
@@ -182,7 +182,12 @@ func runC14(c *Ctx) {
 							ex = e
 						}
 					}
-					key := fmt.Sprintf("%s:parseSpan(%q)#%s.result%d", fnName(fn), tag, side, s.idx)
+					// the span tag identifies the unified header's two calls wherever they live; untagged calls are named by their function
+					who := fnName(fn)
+					if tag == "-" || tag == "+" {
+						who = "mdiff unified header"
+					}
+					key := fmt.Sprintf("%s:parseSpan(%q)#%s.result%d", who, tag, side, s.idx)
 					if ex == nil {
 						c.ok("R-SPAN-SENTINEL", key, call.Pos(), "result unused")
 						continue
@@ -316,6 +321,47 @@ func runC14(c *Ctx) {
 		}
 		return true
 	})
+	// table form: if op, ok := markerTable[line[0]]; ok { file(op, line[k:]) }
+	for _, fd := range helperDecls(p, ruc, 2) {
+		ast.Inspect(fd, func(n ast.Node) bool {
+			ifs, ok := n.(*ast.IfStmt)
+			if !ok || ifs.Init == nil {
+				return true
+			}
+			as, ok := ifs.Init.(*ast.AssignStmt)
+			if !ok || len(as.Rhs) != 1 {
+				return true
+			}
+			ix, ok := as.Rhs[0].(*ast.IndexExpr)
+			if !ok {
+				return true
+			}
+			tbl := opTableOf(p, ix.X)
+			if tbl == nil {
+				return true
+			}
+			if inner, ok := ix.Index.(*ast.IndexExpr); !ok {
+				return true
+			} else if k, ok := constIntOf(info, inner.Index); !ok || k != 0 {
+				return true
+			}
+			off := int64(-1)
+			ast.Inspect(ifs.Body, func(m ast.Node) bool {
+				if se, ok := m.(*ast.SliceExpr); ok && se.Low != nil && se.High == nil {
+					if k, ok := constIntOf(info, se.Low); ok {
+						off = k
+					}
+				}
+				return true
+			})
+			if off >= 0 {
+				for key, op := range tbl {
+					rUnified[byte(key)] = rl{op, off}
+				}
+			}
+			return true
+		})
+	}
 	judgeLine := func(op int64, want wl) {
 		key := fmt.Sprintf("unified:%s.%s", opNames[op], want.field)
 		got, ok := rUnified[want.pfx[0]]
@@ -373,21 +419,27 @@ func runC14(c *Ctx) {
 			}
 		}
 		var rTokens, rTags []string
-		ast.Inspect(ruc, func(n ast.Node) bool {
-			if be, ok := n.(*ast.BinaryExpr); ok && be.Op == token.NEQ {
-				if ie, ok := be.X.(*ast.IndexExpr); ok {
-					if id, ok := ie.X.(*ast.Ident); ok && id.Name == "parts" {
-						if s, ok := strConst(info, be.Y); ok {
-							rTokens = append(rTokens, s)
+		for _, fd := range helperDecls(p, ruc, 2) {
+			// (the header may be parsed in a helper of the chunk reader)
+			ast.Inspect(fd, func(n ast.Node) bool {
+				if be, ok := n.(*ast.BinaryExpr); ok && be.Op == token.NEQ {
+					if ie, ok := be.X.(*ast.IndexExpr); ok {
+						// an element of the split header line compared with a constant token
+						if tv, ok := info.Types[ie.X]; ok {
+							if sl, ok := tv.Type.Underlying().(*types.Slice); ok && isStringType(sl.Elem()) {
+								if s, ok := strConst(info, be.Y); ok {
+									rTokens = append(rTokens, s)
+								}
+							}
 						}
 					}
 				}
-			}
-			return true
-		})
-		for _, call := range callsIn(ruc, "parseSpan") {
-			if s, ok := strConst(info, call.Args[0]); ok {
-				rTags = append(rTags, s)
+				return true
+			})
+			for _, call := range callsIn(fd, "parseSpan") {
+				if s, ok := strConst(info, call.Args[0]); ok && s != "" {
+					rTags = append(rTags, s)
+				}
 			}
 		}
 		c.judge(len(wTokens) == 2 && strings.Join(wTokens, " ") == strings.Join(rTokens, " "), "R-PREFIX-TABLES", "unified:header tokens", unified.Pos(), fmt.Sprintf("%q on both sides", wTokens), fmt.Sprintf("the writer frames the chunk header with %q, the reader expects %q", wTokens, rTokens))
@@ -512,6 +564,53 @@ func runC14(c *Ctx) {
 				} else if id, ok := call.Args[1].(*ast.Ident); ok {
 					for _, v := range rangeVals[info.Uses[id]] {
 						cutLetters[v] = true
+					}
+				}
+			}
+		}
+		// table form: a table of command records {letter, op, …}; the reader cuts on record.letter and assigns record.op
+		if recLetters, recTypes := recordTables(p); len(recLetters) > 0 {
+			usesLetter, usesOp := false, false
+			for _, fd := range helperDecls(p, rn, 2) {
+				ast.Inspect(fd, func(n ast.Node) bool {
+					switch x := n.(type) {
+					case *ast.CallExpr:
+						if selName(x.Fun) == "Cut" && len(x.Args) == 2 {
+							if sel, ok := x.Args[1].(*ast.SelectorExpr); ok {
+								if tv, ok := info.Types[sel.X]; ok {
+									t := tv.Type
+									if pt, ok := t.(*types.Pointer); ok {
+										t = pt.Elem()
+									}
+									if recTypes[t] {
+										usesLetter = true
+									}
+								}
+							}
+						}
+					case *ast.AssignStmt:
+						if len(x.Lhs) == 1 && len(x.Rhs) == 1 && selName(x.Lhs[0]) == "Op" {
+							if sel, ok := x.Rhs[0].(*ast.SelectorExpr); ok {
+								if tv, ok := info.Types[sel.X]; ok {
+									t := tv.Type
+									if pt, ok := t.(*types.Pointer); ok {
+										t = pt.Elem()
+									}
+									if recTypes[t] {
+										usesOp = true
+									}
+								}
+							}
+						}
+					}
+					return true
+				})
+			}
+			if usesLetter {
+				for l, op := range recLetters {
+					cutLetters[l] = true
+					if usesOp {
+						rCmd[l] = op
 					}
 				}
 			}
@@ -704,4 +803,130 @@ func runC14(c *Ctx) {
 	if nSt == 0 {
 		c.undecided("R-PATCH-FRESH", "mdiff.diffReader.chunks", 0, "no store to the reader's chunk list found")
 	}
+}
+
+// helperDecls: the function declarations of the package called (by plain name or as a method) from root, transitively.
+func helperDecls(p *packages.Package, root *ast.FuncDecl, depth int) []*ast.FuncDecl {
+	out := []*ast.FuncDecl{root}
+	seen := map[string]bool{root.Name.Name: true}
+	for i := 0; i < len(out) && depth > 0; i++ {
+		ast.Inspect(out[i], func(n ast.Node) bool {
+			call, ok := n.(*ast.CallExpr)
+			if !ok {
+				return true
+			}
+			name := ""
+			switch f := call.Fun.(type) {
+			case *ast.Ident:
+				name = f.Name
+			case *ast.SelectorExpr:
+				name = f.Sel.Name
+			}
+			if name == "" || seen[name] {
+				return true
+			}
+			if fd := findFuncDecl(p, name); fd != nil && len(out) < 12 {
+				seen[name] = true
+				out = append(out, fd)
+			}
+			return true
+		})
+	}
+	return out
+}
+
+// opTableByKey: a package-level map or array literal from byte constants to EditOp constants (a reader's marker
+// table), looked up by identifier use.
+func opTableOf(p *packages.Package, e ast.Expr) map[int64]int64 {
+	id, ok := e.(*ast.Ident)
+	if !ok {
+		return nil
+	}
+	v, ok := p.TypesInfo.Uses[id].(*types.Var)
+	if !ok || v.Parent() != p.Types.Scope() {
+		return nil
+	}
+	init, _ := pkgVarInit(p, id.Name)
+	cl, ok := init.(*ast.CompositeLit)
+	if !ok {
+		return nil
+	}
+	out := map[int64]int64{}
+	for _, el := range cl.Elts {
+		kv, ok := el.(*ast.KeyValueExpr)
+		if !ok {
+			return nil
+		}
+		k, ok1 := constIntOf(p.TypesInfo, kv.Key)
+		tv, okT := p.TypesInfo.Types[kv.Value]
+		if !ok1 || !okT {
+			return nil
+		}
+		nt, isNamed := tv.Type.(*types.Named)
+		if !isNamed || nt.Obj().Name() != "EditOp" {
+			return nil
+		}
+		val, ok2 := constIntOf(p.TypesInfo, kv.Value)
+		if !ok2 {
+			return nil
+		}
+		out[k] = val
+	}
+	return out
+}
+
+// recordTables: package-level literals of records that carry a string constant and an EditOp constant each
+// (a reader's command table): letter → op.
+func recordTables(p *packages.Package) (map[string]int64, map[types.Type]bool) {
+	letters := map[string]int64{}
+	recTypes := map[types.Type]bool{}
+	for _, f := range p.Syntax {
+		for _, d := range f.Decls {
+			gd, ok := d.(*ast.GenDecl)
+			if !ok || gd.Tok != token.VAR {
+				continue
+			}
+			for _, sp := range gd.Specs {
+				for _, val := range sp.(*ast.ValueSpec).Values {
+					cl, ok := val.(*ast.CompositeLit)
+					if !ok {
+						continue
+					}
+					for _, el := range cl.Elts {
+						if kv, ok := el.(*ast.KeyValueExpr); ok {
+							el = kv.Value
+						}
+						rec, ok := el.(*ast.CompositeLit)
+						if !ok {
+							continue
+						}
+						letter, op, haveL, haveO := "", int64(0), false, false
+						for _, fe := range rec.Elts {
+							var v ast.Expr = fe
+							if kv, ok := fe.(*ast.KeyValueExpr); ok {
+								v = kv.Value
+							}
+							if sv, ok := strConst(p.TypesInfo, v); ok && !haveL {
+								letter, haveL = sv, true
+							}
+							if tv, ok := p.TypesInfo.Types[v]; ok {
+								if nt, ok := tv.Type.(*types.Named); ok && nt.Obj().Name() == "EditOp" {
+									if k, ok := constIntOf(p.TypesInfo, v); ok {
+										op, haveO = k, true
+									}
+								}
+							}
+						}
+						if haveL && haveO {
+							letters[letter] = op
+							if tv, ok := p.TypesInfo.Types[rec]; ok {
+								recTypes[tv.Type] = true
+							}
+						}
+					}
+				}
+			}
+		}
+	}
+	return letters, recTypes
 }
